@@ -736,7 +736,9 @@ def call_ext(interp, ext, node, args, kwargs, st):
         if name == "det":
             d = dim_collapse(a0.dim)
             interp.emit(st, "det", node, target=a0)
-            return fresh(dim_pow(d, 3) if dim_known(d) else d, tags=frozenset(["det"]))
+            out = fresh(dim_pow(d, 3) if dim_known(d) else d, tags=frozenset(["det"]))
+            out.extra = ("det-of", a0)
+            return out
         if name == "inv":
             return fresh(dim_inv(dim_collapse(a0.dim)))
         if name == "lstsq":
